@@ -280,6 +280,17 @@ theorem simpleExec_le (m : ExprMap) (h : ExprOK m) (s : St) (st : Stmt) :
   case global => exact Res.le_refl _
   case import_ => exact Res.le_refl _
   case importFrom => exact Res.le_refl _
+  case annAssign tg ann v simple =>
+    simp only [mapStmt, simpleExec, nameOf_map m h tg]
+    by_cases hc : (s.locals.isSome && simple) = true
+    · simp only [hc, if_true]
+      cases nameOf tg with
+      | none => left; rfl
+      | some p =>
+        cases v with
+        | none => exact Res.le_refl _
+        | some e => simp only [mapO]; exact evalThen_le m h s e _
+    · simp only [hc, Bool.false_eq_true, if_false]; left; rfl
   all_goals (left; rfl)
 
 def mapFT (m : ExprMap) : FTab → FTab
@@ -360,7 +371,8 @@ theorem bindS_map (m : ExprMap) (h : ExprOK m) : ∀ st : Stmt, bindS (mapStmt m
   | .assign ts v => by simp only [mapStmt, bindS, assignTarget_map m h ts, coreX_map m h v]
   | .typeAlias .. => by simp [mapStmt, bindS]
   | .augAssign tg op v => by simp only [mapStmt, bindS, nameOf_map m h tg, h.core]
-  | .annAssign .. => by simp [mapStmt, bindS]
+  | .annAssign tg ann v simple => by
+    cases v <;> simp only [mapStmt, mapO, bindS, nameOf_map m h tg, h.core]
   | .for_ a tg it body orelse => by
     cases a
     · simp only [mapStmt, bindS, forRange_map m h tg it, bindL_map m h body, bindL_map m h orelse]
